@@ -1,6 +1,7 @@
 (* Model/Decode.v — calibrators.py, encodings.py, parameter_types.py, parameters.py: decoding one
    parameter from the packet cursor (repaired forms, DESIGN 1.4 F5/F6/F8/F16).  Executable definitions only. *)
 From Coq Require Import ZArith List Bool String.
+From Flocq Require IEEE754.BinarySingleNaN.
 From SPP Require Import Base.Bytes Base.Sx Base.Floats Model.Cursor Model.Values Model.Criteria Model.Doc.
 Import ListNotations.
 Open Scope Z_scope.
@@ -179,10 +180,16 @@ Definition parse_numeric (e : numeric_enc) (env : env) (c : cursor) : res (pval 
 
 (* ================= computed lengths ================= *)
 (* the LinearAdjustment closure: slope * float(x) + intercept, must be integral *)
+Definition of_Zb (z : Z) : res b64 :=
+  let x := BinarySingleNaN.binary_normalize 53 1024 P53 P53lt BinarySingleNaN.mode_NE z 0 false in
+  match x with BinarySingleNaN.B754_infinity _ => Err EOverflow | _ => Ok x end.
+Definition to_b64 (x : num) : res b64 := match x with NInt z => of_Zb z | NFloat b => Ok (of_bits64 b) end.
+Definition adjusted_value (s xf i : b64) : b64 :=
+  BinarySingleNaN.Bplus BinarySingleNaN.mode_NE (BinarySingleNaN.Bmult BinarySingleNaN.mode_NE s xf) i.
 Definition linear_adjust (slope icpt : Z) (x : num) : res Z :=
-  xf <- to_float x ;; s <- of_Z slope ;; i <- of_Z icpt ;;
-  let adjusted := fadd (fmul s xf) i in
-  if f_is_integer adjusted then Ok (f_trunc adjusted) else Err EValue.
+  xf <- to_b64 x ;; s <- of_Zb slope ;; i <- of_Zb icpt ;;
+  let adjusted := adjusted_value s xf i in
+  if f_is_integer (to_bits64 adjusted) then Ok (BinarySingleNaN.Btrunc adjusted) else Err EValue.
 (* int(x) *)
 Definition int_of_num (x : num) : res Z :=
   match x with NInt z => Ok z | NFloat b => if f_is_finite b then Ok (f_trunc b) else if f_isnan b then Err EValue else Err EOverflow end.
